@@ -3,6 +3,7 @@ SPECIFICATION Spec
 CONSTANTS
   Shapes <- ShapesTW
   StepVals <- Steps12
+  Broadcast = FALSE
   MaxSlices = 1
   MaxWrites = 1
   MaxReshapes = 0
